@@ -30,7 +30,10 @@ type WorldSpec struct {
 	EnableNameChange bool                         `json:"enable_name_change"`
 	ActivationEpoch  uint32                       `json:"activation_epoch"`
 	Gas              map[string]map[string]uint64 `json:"gas"`
-	Tokens           []TokenInfo                  `json:"tokens"`
+	// GasBeforeCreate, when set, is a schedule change the factory receives BEFORE it builds the container (an embedder
+	// may subscribe the factory first): the container must then be priced by it (if it is acceptable)
+	GasBeforeCreate map[string]map[string]uint64 `json:"gas_before_create,omitempty"`
+	Tokens          []TokenInfo                  `json:"tokens"`
 }
 
 type Op struct {
@@ -90,12 +93,15 @@ type Engine struct {
 func NewEngine(spec WorldSpec) *Engine {
 	e := &Engine{Spec: spec, W: &World{}, M: NewModel(spec.NShards)}
 	for i := 0; i < spec.NShards; i++ {
-		sh, err := NewShard(ShardConfig{NShards: uint32(spec.NShards), Self: uint32(i), Gas: spec.Gas, DNS: spec.DNS, EnableNameChange: spec.EnableNameChange, ActivationEpoch: spec.ActivationEpoch})
+		sh, err := NewShard(ShardConfig{NShards: uint32(spec.NShards), Self: uint32(i), Gas: spec.Gas, GasBeforeCreate: spec.GasBeforeCreate, DNS: spec.DNS, EnableNameChange: spec.EnableNameChange, ActivationEpoch: spec.ActivationEpoch})
 		if err != nil {
 			panic("world construction failed: " + err.Error())
 		}
 		e.W.Shards = append(e.W.Shards, sh)
 		e.M.Shards[i].Gas = flattenGas(spec.Gas)
+		if spec.GasBeforeCreate != nil && GasValid(spec.GasBeforeCreate) {
+			e.M.Shards[i].Gas = flattenGas(spec.GasBeforeCreate)
+		}
 	}
 	for _, d := range spec.DNS {
 		e.M.DNS[string(d)] = true
@@ -479,6 +485,9 @@ func (e *Engine) ExecCall(c *Call) *CallRecord {
 				if rec.Consumed == alt {
 					ok = true
 				}
+			}
+			if b := v.ChargeBand; b != nil && b[1] > 0 && rec.Consumed >= b[0] && (rec.Consumed-b[0])%b[1] == 0 && (rec.Consumed-b[0])/b[1] <= b[2] {
+				ok = true
 			}
 			if !ok {
 				add(clause([]string{"C16"}, c.Fn+"/charge", "%s consumed %d gas; its own schedule entry plus per-byte components give %d (alternatives %v) under the schedule in force", c.String(), rec.Consumed, want, v.ChargeAlt))
